@@ -2286,6 +2286,7 @@ func runC08SpellCmp(c *Ctx) {
 		return "", false
 	}
 	occ := map[string]int{}
+	compared := 0
 	for _, fn := range p.Funcs {
 		eachInstr(fn, func(_ *ssa.BasicBlock, _ int, in ssa.Instruction) {
 			bo, ok := in.(*ssa.BinOp)
@@ -2303,10 +2304,14 @@ func runC08SpellCmp(c *Ctx) {
 				}
 				k := FuncName(fn) + "|" + src + " == " + strconv.Quote(s)
 				occ[k]++
+				compared++
 				c.bad(fmt.Sprintf("%s#%d", k, occ[k]), bo.Pos(), "the spelling of a case-insensitive name ("+src+") is compared with the constant "+strconv.Quote(s)+": the comparison holds for one letter case of the name only, the map beside it is keyed by the lower-case image")
 				return
 			}
 		})
+	}
+	if compared > 0 {
+		return // the comparisons found are reported one by one; the statement below does not hold
 	}
 	c.ok("spelling fields never compared with a constant name", token.NoPos, fmt.Sprintf("%d spelling fields of name-keyed map entries; none reaches an == / != / switch against a constant containing a letter", len(fields)))
 }
